@@ -118,6 +118,24 @@ fn hasher_secrets(mode: &Mode, m: &mut Stream) -> std::collections::HashSet<[u8;
     s
 }
 
+/// Wipe-then-die, the pattern zeroize exists for: nothing reads the object after the wipe, so an
+/// optimiser is free to delete any wipe that is not volatile. Observed by the `free` interposer.
+#[cfg(not(miri))]
+#[inline(never)]
+fn die_zeroized<T: Zeroize>(x: T) {
+    crate::scanalloc::set_limit(core::mem::size_of::<T>());
+    let mut b = std::hint::black_box(Box::new(x));
+    b.zeroize();
+    drop(b);
+}
+#[cfg(not(miri))]
+#[inline(never)]
+fn die_plain<T>(x: T) {
+    crate::scanalloc::set_limit(core::mem::size_of::<T>());
+    let b = std::hint::black_box(Box::new(x));
+    drop(b);
+}
+
 fn public_history(rng: &mut Rng) -> Vec<usize> {
     let n = 1 + rng.usize_below(6);
     (0..n).map(|_| gen::hostile_len(rng, 20_000)).collect()
@@ -142,7 +160,7 @@ pub fn run(args: &Args) -> Report {
             // two independent secret assignments for the same public history
             let mode = match which {
                 0 => Mode::Hash,
-                1 => Mode::Keyed(rng.array32()),
+                1 => Mode::Keyed(gen::key(rng)), // includes the all-zero and all-0xFF keys
                 _ => Mode::DeriveKey((0..ctxlen).map(|_| b'a' + rng.below(26) as u8).collect()),
             };
             let mut h = api::hasher_for(&mode);
@@ -187,7 +205,16 @@ pub fn run(args: &Args) -> Report {
                 rep.count("secret_windows", secrets.len() as u64);
                 // positive control: the same scan on the object *before* zeroize must find residue,
                 // otherwise the scanner is blind (harness error, not a verdict)
-                if idx % 16 == 0 && (which != 0 || m.bytes.len() >= 8) {
+                // a live Hasher certainly holds one of the windows if its key has one (the all-zero
+                // key has none: windows with 4+ zero bytes are not searched for) or if it buffers
+                // 8+ input bytes
+                let must_hold = {
+                    let mut kw = std::collections::HashSet::new();
+                    windows(&specmodel::cv_bytes(&mode.key_flags().0), &mut kw);
+                    let n = m.bytes.len();
+                    !kw.is_empty() || (n >= 8 && (n % 64 == 0 || n % 64 >= 8))
+                };
+                if idx % 16 == 0 && must_hold {
                     if scan(&raw_bytes(&h), &secrets).is_some() {
                         rep.count("positive_controls_found", 1);
                     } else {
@@ -225,6 +252,75 @@ pub fn run(args: &Args) -> Report {
                     }
                     Err(p) => fail = Some(("zeroize/panic".into(), p)),
                 }
+                // ---- (c) what is left in a heap block when a zeroized object dies -------------
+                // Reading an object back keeps its wiping stores alive; the allocator that receives
+                // the dying block sees what the optimiser really left there.
+                #[cfg(not(miri))]
+                {
+                    let mut needles: Vec<[u8; 8]> = secrets.iter().copied().collect();
+                    let hv = *h.finalize().as_bytes();
+                    let mut hs = std::collections::HashSet::new();
+                    windows(&hv, &mut hs);
+                    windows(&buf, &mut hs);
+                    needles.extend(hs.into_iter());
+                    // Padding bytes of the boxed copy hold whatever the move copied there (harness
+                    // stack garbage, possibly secret-derived) and are not the object's data. Every
+                    // run of padding in these types is shorter than 8 bytes, so an 8-byte window
+                    // always covers a data byte, and a wiped data byte is zero: searching only for
+                    // windows without any zero byte cannot hit a fully wiped object.
+                    needles.retain(|w| w.iter().all(|b| *b != 0));
+                    let control = idx % 16 == 0;
+                    let r = guarded(|| {
+                        crate::scanalloc::freed_blocks_holding(needles, || {
+                            let mut found = [0u64; 3];
+                            let f0 = crate::scanalloc::found_so_far();
+                            if control {
+                                die_plain(h.clone());
+                            } else {
+                                die_zeroized(h.clone());
+                            }
+                            let f1 = crate::scanalloc::found_so_far();
+                            if control {
+                                die_plain(rd.clone());
+                            } else {
+                                die_zeroized(rd.clone());
+                            }
+                            let f2 = crate::scanalloc::found_so_far();
+                            if control {
+                                die_plain(h.finalize());
+                            } else {
+                                die_zeroized(h.finalize());
+                            }
+                            let f3 = crate::scanalloc::found_so_far();
+                            found[0] = f1 - f0;
+                            found[1] = f2 - f1;
+                            found[2] = f3 - f2;
+                            found
+                        })
+                        .0
+                    });
+                    match r {
+                        Ok(found) => {
+                            rep.count("dying_heap_blocks_scanned", 3);
+                            if control {
+                                // without zeroize the dying blocks must still hold the secrets
+                                if found[2] == 1 && (found[0] == 1 || !must_hold) {
+                                    rep.count("dying_block_positive_controls_found", 1);
+                                } else if hv.iter().filter(|b| **b == 0).count() < 4 {
+                                    rep.count("harness_panics", 1);
+                                    rep.inconclusive.push(format!("dying-block scanner blind in case {}: {:?}", idx, found));
+                                }
+                            } else {
+                                for (k, name) in ["Hasher", "OutputReader", "Hash"].iter().enumerate() {
+                                    if found[k] != 0 {
+                                        fail = Some((format!("zeroize/{}-residue-at-drop", name.to_lowercase()), format!("a boxed {} was zeroize()d and dropped; the heap block handed back to the allocator still held secret-derived bytes {} at offset {} of {} (the wipe did not survive optimisation)", name, hex(&crate::scanalloc::last_hit().1), crate::scanalloc::last_hit().0, [core::mem::size_of::<blake3::Hasher>(), core::mem::size_of::<blake3::OutputReader>(), 32][k])));
+                                    }
+                                }
+                            }
+                        }
+                        Err(p) => fail = Some(("zeroize/panic".into(), p)),
+                    }
+                }
             }
         }
         plat::force(P::Native);
@@ -244,4 +340,4 @@ pub fn run(args: &Args) -> Report {
     })
 }
 
-pub const RULE: &str = "one evaluation = one public history (update lengths, seek, read length, mode class, platform) executed with two independent secret assignments: the six Debug strings (Hasher, OutputReader, guts::ChunkState; {:?} and {:#?}) must be identical and free of renderings of secret words; then zeroize() on Hasher/OutputReader/Hash and a scan of every byte of the object for any 8-byte window of a secret-derived value (key, running chunk CVs, buffered input, all aligned subtree CVs, parent blocks, root output); distinct = distinct public histories";
+pub const RULE: &str = "one evaluation = one public history (update lengths, seek, read length, mode class, platform) executed with two independent secret assignments: the six Debug strings (Hasher, OutputReader, guts::ChunkState; {:?} and {:#?}) must be identical and free of renderings of secret words; then zeroize() on Hasher/OutputReader/Hash, a scan of the heap block of a boxed, zeroized and dropped copy as the allocator receives it, and a scan of every byte of the object for any 8-byte window of a secret-derived value (key, running chunk CVs, buffered input, all aligned subtree CVs, parent blocks, root output); distinct = distinct public histories";
